@@ -193,6 +193,8 @@ theorem C28_inv_step (cfg : Cfg) (hc : cfg.covers = true) (s : St) (op : Op) (hs
   | lmut p m =>
       simp only [step]
       split
+      · exact hs'
+      split
       · rename_i d n hm
         have ha' : (m.prep cfg).args.all allW = true ∧ notifies cfg m = true := by simpa [Op.argsW] using ha
         have := modAt_sound (f := applyL cfg m) (fun t t' n ht h => applyL_sound hc ht ha'.1 ha'.2 h) p s.doc d n h1 hm
@@ -200,6 +202,8 @@ theorem C28_inv_step (cfg : Cfg) (hc : cfg.covers = true) (s : St) (op : Op) (hs
       · exact notified_inv_same s hs' _ _
   | dmut p m =>
       simp only [step]
+      split
+      · exact hs'
       split
       · rename_i d n hm
         have := modAt_sound (f := applyD cfg m) (fun t t' n ht h => applyD_sound hc ht (by simpa [Op.argsW] using ha) h) p s.doc d n h1 hm
@@ -261,7 +265,8 @@ theorem C28_wrapped_preserved (cfg : Cfg) (hc : cfg.covers = true) (s : St) (op 
 theorem C28_dirty_list (cfg : Cfg) (hc : cfg.covers = true) (s : St) (hs : allW s.doc = true) (p : List Step) (m : LMut)
     (hcr : s.status ≠ .created) (hal : s.status.alive = true) (hok : (step cfg s (.lmut p m)).2 = none) :
     (step cfg s (.lmut p m)).1.dirty = true ∧ (step cfg s (.lmut p m)).1.status = .modified := by
-  simp only [step] at hok ⊢
+  have hnr : refused cfg s p (isTrackedL cfg m) = false := by simp [refused, hal]
+  simp only [step, hnr, Bool.false_eq_true, if_false] at hok ⊢
   split
   · rename_i d n hm
     have hr : notifies cfg m = true := by
@@ -275,7 +280,8 @@ theorem C28_dirty_list (cfg : Cfg) (hc : cfg.covers = true) (s : St) (hs : allW 
 theorem C28_dirty_dict (cfg : Cfg) (hc : cfg.covers = true) (s : St) (hs : allW s.doc = true) (p : List Step) (m : DMut)
     (hcr : s.status ≠ .created) (hal : s.status.alive = true) (hok : (step cfg s (.dmut p m)).2 = none) :
     (step cfg s (.dmut p m)).1.dirty = true ∧ (step cfg s (.dmut p m)).1.status = .modified := by
-  simp only [step] at hok ⊢
+  have hnr : refused cfg s p (isTrackedD cfg m) = false := by simp [refused, hal]
+  simp only [step, hnr, Bool.false_eq_true, if_false] at hok ⊢
   split
   · rename_i d n hm
     have := modAt_notifies (f := applyD cfg m) (fun t t' n ht h => applyD_notifies hc ht h) p s.doc d n hs hm
@@ -312,7 +318,8 @@ theorem C28_read_clean (cfg : Cfg) (s : St) (p : List Step) : (step cfg s (.read
 theorem C28_error_unchanged (cfg : Cfg) (s : St) (p : List Step) (m : LMut) (e : Err) (hm : m.raises = false)
     (hal : s.status.alive = true) (h : (step cfg s (.lmut p m)).2 = some e) :
     (step cfg s (.lmut p m)).1.doc = s.doc ∧ (step cfg s (.lmut p m)).1.db = s.db := by
-  simp only [step] at h ⊢
+  have hnr : refused cfg s p (isTrackedL cfg m) = false := by simp [refused, hal]
+  simp only [step, hnr, Bool.false_eq_true, if_false] at h ⊢
   split
   · rename_i d n hm'; cases n <;> simp [hm', hm, notified, hal] at h
   · exact notified_doc s _ _
@@ -333,13 +340,28 @@ theorem C28_new_session (cfg : Cfg) (s : St) (hs : Inv s) (hal : s.status.alive 
 
 /-! ### objects whose session is over, deleted objects (the error branches of `_attr_changed_` / `__set__`) -/
 
-/-- a wrapper outlives its session: a mutator called on it still changes the value IN MEMORY, `_attr_changed_` then raises
-    DatabaseSessionIsOver (OperationWithDeletedObjectError for a deleted object); nothing is marked, nothing is written -/
-theorem C28_dead_raises (cfg : Cfg) (s : St) (hd : s.status.alive = false) (p : List Step) (m : LMut) (d : T)
+/-- a wrapper outlives its session.  When `tracked_method` asks the owner FIRST (`refusesFirst`, the current source), a tracked
+    mutator called on it is refused with DatabaseSessionIsOver (OperationWithDeletedObjectError for a deleted object) and changes
+    NOTHING: neither the value in memory, nor the write bits, nor the database -/
+theorem C28_dead_refused (cfg : Cfg) (hr : cfg.refusesFirst = true) (s : St) (hd : s.status.alive = false) (p : List Step) (m : LMut) (t : T)
+    (ht : getAt p s.doc = some t) (htr : isTrackedL cfg m t = true) : step cfg s (.lmut p m) = (s, some (deadErr s)) := by
+  simp [step, refused, hd, hr, ht, htr]
+
+theorem C28_dead_refused_dict (cfg : Cfg) (hr : cfg.refusesFirst = true) (s : St) (hd : s.status.alive = false) (p : List Step) (m : DMut) (t : T)
+    (ht : getAt p s.doc = some t) (htr : isTrackedD cfg m t = true) : step cfg s (.dmut p m) = (s, some (deadErr s)) := by
+  simp [step, refused, hd, hr, ht, htr]
+
+/-- the order of the current source, probed on the real classes with an owner that refuses: breaks the build when the check moves
+    back behind the built-in method -/
+theorem C28_refuses_first_current : table.refusesFirst = true := by decide
+
+/-- … without that order the built-in method would change the value IN MEMORY and `_attr_changed_` would raise afterwards; still
+    nothing would be marked or written -/
+theorem C28_dead_raises (cfg : Cfg) (hr : cfg.refusesFirst = false) (s : St) (hd : s.status.alive = false) (p : List Step) (m : LMut) (d : T)
     (hm : modAt (applyL cfg m) p s.doc = .ok (d, true)) :
     (step cfg s (.lmut p m)).2 = some (deadErr s) ∧ (step cfg s (.lmut p m)).1.doc = d
       ∧ (step cfg s (.lmut p m)).1.db = s.db ∧ (step cfg s (.lmut p m)).1.dirty = s.dirty ∧ (step cfg s (.lmut p m)).1.status = s.status := by
-  simp [step, hm, notified, hd, deadErr]
+  simp [step, refused, hr, hm, notified, hd, deadErr]
 
 /-- once the session is over no operation short of reading the object again in a new session changes what the database holds -/
 theorem C28_dead_nothing_written (cfg : Cfg) (s : St) (hd : s.status = .over) (op : Op) (hop : ∀ v, op ≠ .reload v) :
@@ -347,9 +369,13 @@ theorem C28_dead_nothing_written (cfg : Cfg) (s : St) (hd : s.status = .over) (o
   cases op with
   | lmut p m =>
       simp only [step]
+      split
+      · exact ⟨rfl, hd⟩
       split <;> (rename_i x n _; cases n <;> simp [notified, hd, Status.alive])
   | dmut p m =>
       simp only [step]
+      split
+      · exact ⟨rfl, hd⟩
       split <;> (rename_i x n _; cases n <;> simp [notified, hd, Status.alive])
   | reload v => exact absurd rfl (hop v)
   | _ => simp [step, notified, hd, Status.alive, doFlush]
@@ -423,7 +449,8 @@ theorem C28_partial_change_dirty_current (s : St) (hs : allW s.doc = true) (hcr 
     (step table s (.lmut p (.sortRaise perm))).1.dirty = true ∧ (step table s (.lmut p (.sortRaise perm))).1.doc = d := by
   have hr : notifies table (.sortRaise perm) = true := by simp [notifies, C28_notify_on_error_current]
   have := modAt_notifies (f := applyL table (.sortRaise perm)) (fun t t' n ht h => applyL_notifies C28_cover_current ht hr h) p s.doc d n hs hm
-  simp only [step, hm, this, notified, hal, if_true]
+  have hnr : refused table s p (isTrackedL table (.sortRaise perm)) = false := by simp [refused, hal]
+  simp only [step, hnr, Bool.false_eq_true, if_false, hm, this, notified, hal, if_true]
   exact ⟨by simp [attrChanged, bitAll, hcr], (attrChanged_doc _).1⟩
 
 /-- the cross-check table: every overridden mutator was also observed to notify -/
@@ -468,7 +495,7 @@ theorem C28_lost_extend (cfg : Cfg) (hc : cfg.covers = true) (k : IterKind) (hu 
   have h := hF v0 false (by decide) (witnessL .extend k)
   have h1 : LM.extend ∈ cfg.listOv := by simpa using Cfg.covers_list hc .extend
   have h2 : LM.append ∈ cfg.listOv := by simpa using Cfg.covers_list hc .append
-  simp [witnessL, run, step, notified, attrChanged, bitAll, notifies, LMut.raises, Kind.isMap, Status.alive, St.load, v0, elemE, one, make, makeL, modAt, locate, normIdx, applyL, lEffect, LMut.prep, LMut.meth, makeVals,
+  simp [witnessL, run, step, notified, attrChanged, bitAll, notifies, LMut.raises, Kind.isMap, Status.alive, refused, St.load, v0, elemE, one, make, makeL, modAt, locate, normIdx, applyL, lEffect, LMut.prep, LMut.meth, makeVals,
     doFlush, ser, serL, Kind.ser, h1, h2, hu, li, List.findIdx?_cons] at h
 
 theorem C28_lost_iadd (cfg : Cfg) (hc : cfg.covers = true) (k : IterKind) (hu : cfg.wraps .iadd k = false) : ¬ Full cfg := by
@@ -476,7 +503,7 @@ theorem C28_lost_iadd (cfg : Cfg) (hc : cfg.covers = true) (k : IterKind) (hu : 
   have h := hF v0 false (by decide) (witnessL .iadd k)
   have h1 : LM.iadd ∈ cfg.listOv := by simpa using Cfg.covers_list hc .iadd
   have h2 : LM.append ∈ cfg.listOv := by simpa using Cfg.covers_list hc .append
-  simp [witnessL, run, step, notified, attrChanged, bitAll, notifies, LMut.raises, Kind.isMap, Status.alive, St.load, v0, elemE, one, make, makeL, modAt, locate, normIdx, applyL, lEffect, LMut.prep, LMut.meth, makeVals,
+  simp [witnessL, run, step, notified, attrChanged, bitAll, notifies, LMut.raises, Kind.isMap, Status.alive, refused, St.load, v0, elemE, one, make, makeL, modAt, locate, normIdx, applyL, lEffect, LMut.prep, LMut.meth, makeVals,
     doFlush, ser, serL, Kind.ser, h1, h2, hu, li, List.findIdx?_cons] at h
 
 theorem C28_lost_setslice (cfg : Cfg) (hc : cfg.covers = true) (k : IterKind) (hu : cfg.wraps .setslice k = false) : ¬ Full cfg := by
@@ -484,7 +511,7 @@ theorem C28_lost_setslice (cfg : Cfg) (hc : cfg.covers = true) (k : IterKind) (h
   have h := hF v0 false (by decide) (witnessL (.setslice none none) k)
   have h1 : LM.setitem ∈ cfg.listOv := by simpa using Cfg.covers_list hc .setitem
   have h2 : LM.append ∈ cfg.listOv := by simpa using Cfg.covers_list hc .append
-  simp [witnessL, run, step, notified, attrChanged, bitAll, notifies, LMut.raises, Kind.isMap, Status.alive, St.load, v0, elemE, one, make, makeL, modAt, locate, normIdx, applyL, lEffect, LMut.prep, LMut.meth, makeVals,
+  simp [witnessL, run, step, notified, attrChanged, bitAll, notifies, LMut.raises, Kind.isMap, Status.alive, refused, St.load, v0, elemE, one, make, makeL, modAt, locate, normIdx, applyL, lEffect, LMut.prep, LMut.meth, makeVals,
     sliceBounds, doFlush, ser, serL, Kind.ser, h1, h2, hu, li, List.findIdx?_cons] at h
 
 theorem C28_lost_update (cfg : Cfg) (hc : cfg.covers = true) (k : IterKind) (hu : cfg.wraps .update k = false) : ¬ Full cfg := by
@@ -492,7 +519,7 @@ theorem C28_lost_update (cfg : Cfg) (hc : cfg.covers = true) (k : IterKind) (hu 
   have h := hF v0 false (by decide) (witnessD (fun k ps => .update k ps []) k)
   have h1 : DM.update ∈ cfg.dictOv := by simpa using Cfg.covers_dict hc .update
   have h2 : LM.append ∈ cfg.listOv := by simpa using Cfg.covers_list hc .append
-  simp [witnessD, run, step, notified, attrChanged, bitAll, notifies, LMut.raises, Kind.isMap, Status.alive, St.load, v0, elemE, one, make, makeL, modAt, locate, normIdx, applyL, applyD, lEffect, dEffect, dSetAll, dSet,
+  simp [witnessD, run, step, notified, attrChanged, bitAll, notifies, LMut.raises, Kind.isMap, Status.alive, refused, St.load, v0, elemE, one, make, makeL, modAt, locate, normIdx, applyL, applyD, lEffect, dEffect, dSetAll, dSet,
     LMut.meth, DMut.prep, DMut.meth, makePairs, doFlush, ser, serL, Kind.ser, h1, h2, hu, li, List.findIdx?_cons] at h
 
 theorem C28_lost_ior (cfg : Cfg) (hc : cfg.covers = true) (k : IterKind) (hu : cfg.wraps .ior k = false) : ¬ Full cfg := by
@@ -500,7 +527,7 @@ theorem C28_lost_ior (cfg : Cfg) (hc : cfg.covers = true) (k : IterKind) (hu : c
   have h := hF v0 false (by decide) (witnessD .ior k)
   have h1 : DM.ior ∈ cfg.dictOv := by simpa using Cfg.covers_dict hc .ior
   have h2 : LM.append ∈ cfg.listOv := by simpa using Cfg.covers_list hc .append
-  simp [witnessD, run, step, notified, attrChanged, bitAll, notifies, LMut.raises, Kind.isMap, Status.alive, St.load, v0, elemE, one, make, makeL, modAt, locate, normIdx, applyL, applyD, lEffect, dEffect, dSetAll, dSet,
+  simp [witnessD, run, step, notified, attrChanged, bitAll, notifies, LMut.raises, Kind.isMap, Status.alive, refused, St.load, v0, elemE, one, make, makeL, modAt, locate, normIdx, applyL, applyD, lEffect, dEffect, dSetAll, dSet,
     LMut.meth, DMut.prep, DMut.meth, makePairs, doFlush, ser, serL, Kind.ser, h1, h2, hu, li, List.findIdx?_cons] at h
 
 theorem C28_lost_tuple (cfg : Cfg) (hc : cfg.covers = true) (hu : cfg.makeTuple = false) : ¬ Full cfg := by
@@ -508,7 +535,7 @@ theorem C28_lost_tuple (cfg : Cfg) (hc : cfg.covers = true) (hu : cfg.makeTuple 
   have h := hF v0 false (by decide) witnessT
   have h2 : LM.append ∈ cfg.listOv := by simpa using Cfg.covers_list hc .append
   have hm : cfg.tupleMode = .leave := by simpa [Cfg.makeTuple] using hu
-  simp [witnessT, run, step, notified, attrChanged, bitAll, notifies, LMut.raises, Kind.isMap, Status.alive, St.load, v0, one, make, makeL, modAt, locate, normIdx, applyL, lEffect, LMut.prep, LMut.meth,
+  simp [witnessT, run, step, notified, attrChanged, bitAll, notifies, LMut.raises, Kind.isMap, Status.alive, refused, St.load, v0, one, make, makeL, modAt, locate, normIdx, applyL, lEffect, LMut.prep, LMut.meth,
     doFlush, ser, serL, Kind.ser, h2, hm, li] at h
 
 /-- `x = obj.data; x.sort()` raising after it has exchanged the two items -/
@@ -519,7 +546,7 @@ theorem C28_lost_partial (cfg : Cfg) (hc : cfg.covers = true) (hu : cfg.notifyOn
   intro hF
   have h := hF v0 false (by decide) witnessP
   have h1 : LM.sort ∈ cfg.listOv := by simpa using Cfg.covers_list hc .sort
-  simp [witnessP, run, step, notified, attrChanged, bitAll, notifies, LMut.raises, Kind.isMap, Status.alive, St.load, v0, make, makeL, modAt, applyL, lEffect,
+  simp [witnessP, run, step, notified, attrChanged, bitAll, notifies, LMut.raises, Kind.isMap, Status.alive, refused, St.load, v0, make, makeL, modAt, applyL, lEffect,
     LMut.prep, LMut.meth, doFlush, ser, serL, Kind.ser, h1, hu] at h
 
 /-- a list that belongs to another object -/
@@ -535,13 +562,13 @@ theorem C28_lost_foreign_arg (cfg : Cfg) (hc : cfg.covers = true) (hu : cfg.rebi
   intro hF
   have h := hF v0 false (by decide) witnessF
   have h2 : LM.append ∈ cfg.listOv := by simpa using Cfg.covers_list hc .append
-  simp [witnessF, foreignL, run, step, notified, attrChanged, bitAll, notifies, LMut.raises, Kind.isMap, Status.alive, St.load, v0, one, make, makeL, makeF, modAt,
+  simp [witnessF, foreignL, run, step, notified, attrChanged, bitAll, notifies, LMut.raises, Kind.isMap, Status.alive, refused, St.load, v0, one, make, makeL, makeF, modAt,
     locate, normIdx, applyL, lEffect, LMut.prep, LMut.prepF, LMut.meth, doFlush, ser, serL, Kind.ser, h2, hu, li] at h
 
 theorem C28_lost_foreign_assign (cfg : Cfg) (hu : cfg.assignRebinds = false) : ¬ Full cfg := by
   intro hF
   have h := hF v0 false (by decide) witnessA
-  simp [witnessA, foreignL, run, step, notified, attrChanged, bitAll, assigned, Status.alive, St.load, v0, one, make, makeL, makeF, modAt,
+  simp [witnessA, foreignL, run, step, notified, attrChanged, bitAll, assigned, Status.alive, refused, St.load, v0, one, make, makeL, makeF, modAt,
     applyL, lEffect, LMut.prepF, doFlush, ser, serL, Kind.ser, hu, li] at h
 
 /-- `C28_full_iff`: for a table that covers the mutators, the full statement (every change made in place, through any
@@ -588,11 +615,13 @@ def cfgUnwrapped : Cfg := {
   rebinds := true,
   assignRebinds := true,
   iterUnwrapped := [(.extend, .tuple), (.extend, .gen), (.ior, .list)],
-  notifyOnError := false }
+  notifyOnError := false,
+  refusesFirst := true }
 
 example : cfgUnwrapped.covers = true ∧ cfgUnwrapped.wrapsAll = false := by decide
 -- the change made through a wrapper after the end of the session stays in memory and raises
 example : (step cfgUnwrapped (step cfgUnwrapped (St.load cfgUnwrapped v0) .endSession).1 (.lmut [.idx 0] (.append one))).2 = some .session := by decide
+example : allW (step cfgUnwrapped (step cfgUnwrapped (St.load cfgUnwrapped v0) .endSession).1 (.lmut [.idx 0] (.append one))).1.doc = true := by decide
 example : (step cfgUnwrapped (step cfgUnwrapped (St.load cfgUnwrapped v0) .delete).1 (.lmut [.idx 0] (.append one))).2 = some .deleted := by decide
 
 
